@@ -35,10 +35,11 @@ const (
 	NX25519 = 8
 	NEd     = 8 // keys 5..7 have SSH tags containing '/' or '+' (alphabet-sensitive)
 	NRSA    = 5
-	NPass   = 6
+	NPass   = 10
 )
 
-var Passphrases = []string{"correct horse", "Correct horse", "correct horse ", "p", "pässwörd-ü", "another-passphrase-0123456789"}
+// (passphrases are used verbatim as scrypt passwords: trailing newline, CR LF, leading space and NUL-free binary included)
+var Passphrases = []string{"correct horse", "Correct horse", "correct horse ", "p", "pässwörd-ü", "another-passphrase-0123456789", "hunter2\n", "line ending\r\n", " leading space", "tab\tinside"}
 
 func X25519Secret(k int) []byte {
 	h := sha256.Sum256([]byte(fmt.Sprintf("verif-x25519-%d", k)))
